@@ -132,7 +132,18 @@ type hubScenario struct {
 	outs   []string
 }
 
+// hubCanon: draw the same random numbers but return the canonical spelling (metamorphic twin run for C15)
+var hubCanon bool
+
 func spell(rnd *rand.Rand, ski string) string {
+	r := spellRaw(rnd, ski)
+	if hubCanon {
+		return ski
+	}
+	return r
+}
+
+func spellRaw(rnd *rand.Rand, ski string) string {
 	var sb strings.Builder
 	for i, c := range ski {
 		if rnd.Intn(3) == 0 {
@@ -146,6 +157,9 @@ func spell(rnd *rand.Rand, ski string) string {
 	}
 	return sb.String()
 }
+
+// hubSlow stretches every settling wait (confirmation re-runs of a single scenario)
+var hubSlow = 1
 
 func runHubScenario(seed int64, maxEv int, port int) *hubScenario {
 	rnd := rand.New(rand.NewSource(seed))
@@ -191,9 +205,13 @@ func runHubScenario(seed int64, maxEv int, port int) *hubScenario {
 	var allConns []*mockConn
 	nextID := 1
 	settle := func(max time.Duration) {
+		if max < 150*time.Millisecond {
+			max = 150 * time.Millisecond
+		}
+		max *= time.Duration(hubSlow)
 		deadline := time.Now().Add(max)
-		time.Sleep(15 * time.Millisecond)
-		for time.Now().Before(deadline) && log.quietFor() < 35*time.Millisecond {
+		time.Sleep(time.Duration(hubSlow) * 25 * time.Millisecond)
+		for time.Now().Before(deadline) && log.quietFor() < time.Duration(hubSlow)*50*time.Millisecond {
 			time.Sleep(5 * time.Millisecond)
 		}
 	}
@@ -310,13 +328,13 @@ func runHubScenario(seed int64, maxEv int, port int) *hubScenario {
 			settle(400 * time.Millisecond)
 			record("report "+hexs(k), nil)
 			delayedCreated = willDelay
-		case choice < 70:
+		case choice < 68:
 			time.Sleep(2200 * time.Millisecond)
 			settle(300 * time.Millisecond)
 			record("tick", nil)
 			sinceDelayed = -1
 			continue
-		case choice < 78:
+		case choice < 77:
 			st := []model.ShipMessageExchangeState{2, 4, 8, 11, 22, 27, 36, 38}[rnd.Intn(8)]
 			c := &mockConn{log: log, id: nextID, ski: k, st: st}
 			c.dh = &mockDH{id: nextID}
@@ -326,8 +344,28 @@ func runHubScenario(seed int64, maxEv int, port int) *hubScenario {
 			allConns = append(allConns, c)
 			settle(60 * time.Millisecond)
 			record(fmt.Sprintf("connected %s %d %d", hexs(k), c.id, uint(st)), nil)
-		case choice < 90:
-			if c, ok := conns[k]; ok {
+		case choice < 91:
+			if c, ok := conns[k]; ok && rnd.Intn(2) == 0 {
+				// a burst: several state updates back to back, as a handshake that runs through its phases produces them
+				all := []model.ShipMessageExchangeState{2, 6, 8, 11, 13, 18, 20, 26, 31, 36, 38}
+				var parts []string
+				changed := false
+				for j := 0; j < 3+rnd.Intn(2); j++ {
+					st := all[rnd.Intn(len(all))]
+					c.mu.Lock()
+					c.st = st
+					c.mu.Unlock()
+					before := h.ServiceForSKI(k).ConnectionStateDetail()
+					h.HandleShipHandshakeStateUpdate(k, model.ShipState{State: st})
+					if h.ServiceForSKI(k).ConnectionStateDetail() != before {
+						changed = true
+					}
+					parts = append(parts, fmt.Sprintf("%d:0", uint(st)))
+				}
+				settle(60 * time.Millisecond)
+				record("burst "+hexs(k)+" "+strings.Join(parts, ","), nil)
+				delayedCreated = changed
+			} else if c, ok := conns[k]; ok {
 				st := []model.ShipMessageExchangeState{2, 6, 7, 8, 10, 11, 13, 14, 15, 16, 18, 20, 26, 27, 31, 36, 37, 38, 39}[rnd.Intn(19)]
 				isErr := st == 39 || rnd.Intn(12) == 0
 				var e error
@@ -380,13 +418,22 @@ func hubstepMain(args []string) int {
 	workers := fs.Int("workers", 40, "parallel scenarios")
 	outIn := fs.String("in", "hub_in.txt", "events")
 	outImpl := fs.String("impl", "hub_impl.txt", "implementation observations")
+	canon := fs.Bool("canon", false, "use canonical SKI spellings in every user operation (same scenarios otherwise)")
+	only := fs.Int("only", -1, "run only the scenario with this index")
+	slow := fs.Int("slow", 1, "stretch settling waits by this factor")
 	_ = fs.Parse(args)
+	hubSlow = *slow
+	hubCanon = *canon
 	hub.VerifSetDelayRanges([][2]int{{1, 2}, {1, 2}, {1, 2}})
 	res := make([]*hubScenario, *n)
 	var wg sync.WaitGroup
 	sem := make(chan struct{}, *workers)
 	basePort := 20000 + rand.New(rand.NewSource(time.Now().UnixNano())).Intn(20000)
 	for i := 0; i < *n; i++ {
+		if *only >= 0 && i != *only {
+			res[i] = &hubScenario{}
+			continue
+		}
 		wg.Add(1)
 		sem <- struct{}{}
 		go func(i int) {
